@@ -110,6 +110,8 @@ pub struct World {
     pub persistent: Option<FaultKind>,
     pub eof_injected: bool,
     pub eintr_fired: u32,
+    /// the shim panicked on purpose (Program.ret_panic) with this token
+    pub app_panic: Option<u32>,
     /// flush() calls so far (faulted ones included)
     pub flush_calls: u64,
     pub short_writes: u32,
@@ -246,6 +248,7 @@ impl World {
             persistent: None,
             eof_injected: false,
             eintr_fired: 0,
+            app_panic: None,
             flush_calls: 0,
             short_writes: 0,
             log_events: true,
@@ -386,6 +389,11 @@ impl World {
                 },
             }
         }
+    }
+
+    /// decoding stopped because a reply was malformed (as opposed to: nothing more is owed)
+    pub fn decode_stopped_on_error(&self) -> bool {
+        self.replies.iter().any(|r| matches!(r, Some(Err(_))))
     }
 
     /// number of units whose bytes have been completely handed to the server
